@@ -127,7 +127,7 @@ pub fn run(ctx: &Ctx) -> i32 {
     );
     rep.assume("when several labels are undefined the tool may name any one of them as the location");
     let per_shard = ctx.tier.pick(6, 300);
-    let acc = run_sharded(ctx.jobs, |shard| {
+    let acc = run_sharded(ctx, |shard| {
         let mut acc = Acc::new();
         for k in 0..per_shard {
             let mut rng = Rng::derive(ctx.seed, 16_000 + shard as u64, k as u64);
